@@ -742,7 +742,7 @@ def run(tier, seed):
                     es, he = host_entry(rc)
                     trusted = he is not None and he["key"] == rig.right[1]
                     kh = rig.write(kh_text(es))
-                    for attempt in (0, 1):
+                    for attempt in (0, 1, 2):
                         t0 = time.time()
                         if tr == "paramiko":
                             out, seen = await loop.run_in_executor(None, rig.run_paramiko, auth, strict, kh, unpin)
@@ -751,6 +751,12 @@ def run(tier, seed):
                         expect_ok = (not strict) or content == "right"
                         if expect_ok and out != "ok" and attempt == 0:
                             continue   # one retry for accept cases (machine load)
+                        if strict and not trusted and not seen and out == "ScrapliConnectionNotOpened" and attempt < 2:
+                            # the TCP connection was lost during key exchange before the client reached its verdict (both ends refuse
+                            # at the same time; seen on a loaded machine, stress seed 107): not a verdict about the key -- try again;
+                            # a wrong error class that is what the code DOES persists over the three attempts and is reported
+                            ck.extra["loopback_reject_cases_retried_after_connection_loss"] = ck.extra.get("loopback_reject_cases_retried_after_connection_loss", 0) + 1
+                            continue
                         if expect_ok and out != "ok" and time.time() - t0 > 8:
                             raise LB.RigError(f"loopback connection timed out under load: {rc} -> {out}")
                         break
